@@ -222,7 +222,7 @@ Record eff (c : list fld) (p : preds) (s s' : state) : Prop := mkEff {
   ef_i : i_sub (pid p) s s';
   ef_t : t_sub (pt p) s s';
   ef_smq : smq_sub s s';
-  ef_hkeep : fmem FhD c = false -> forall k, In k (hk s) -> In k (hk s');
+  ef_hkeep : fmem FhD c = false -> forall x, In x (handlers s) -> In x (handlers s');
   ef_ikeep : fmem FidD c = false -> forall k, In k (ik s) -> In k (ik s');
   ef_cr : crashed s = true -> crashed s' = true
 }.
@@ -310,10 +310,10 @@ Qed.
 Lemma eff_of_frame c p s s' :
   frame c s s' -> fmem Fsq c = false -> fmem Fh c = false -> fmem Fid c = false -> fmem Ft c = false ->
   fmem Fsmq c = false -> fmem Fst c = false -> (fmem Fsme c = false -> sm_enabled s' = sm_enabled s) ->
-  (crashed s = true -> crashed s' = true) ->
+  (crashed s = true -> crashed s' = true) -> handlers s' = handlers s ->
   eff c p s s'.
 Proof.
-  intros F A B C D E G Hs Hc. constructor.
+  intros F A B C D E G Hs Hc Hh. constructor.
   - eapply frame_weaken; [|exact F]. intros f Hf. rewrite fmem_app in Hf. apply orb_false_iff in Hf. tauto.
   - intros _. exact F.
   - left. exact (F Fst G).
@@ -323,19 +323,19 @@ Proof.
   - apply i_sub_same. exact (F Fid C).
   - apply t_sub_same. exact (F Ft D).
   - apply smq_sub_same. exact (F Fsmq E).
-  - intros _ k Hk. pose proof (F Fh B) as X. cbn in X. rewrite X. exact Hk.
+  - intros _ k Hk. rewrite Hh. exact Hk.
   - intros _ k Hk. pose proof (F Fid C) as X. cbn in X. rewrite X. exact Hk.
   - exact Hc.
 Qed.
 Ltac eff_frame :=
   apply eff_of_frame; [solve_frame|reflexivity|reflexivity|reflexivity|reflexivity|reflexivity|reflexivity|
                        first [intros _; reflexivity | let X := fresh in intro X; discriminate X]|
-                       first [intros _; reflexivity | let X := fresh in intro X; exact X]].
+                       first [intros _; reflexivity | let X := fresh in intro X; exact X]|reflexivity].
 
 Lemma eff_mk c p s s' :
   frame c s s' -> fmem Fst c = false -> (fmem Fsme c = false -> sm_enabled s' = sm_enabled s) ->
   sq_ext (pw p) s s' -> h_sub (ph p) s s' -> i_sub (pid p) s s' -> t_sub (pt p) s s' -> smq_sub s s' ->
-  (fmem FhD c = false -> forall k, In k (hk s) -> In k (hk s')) ->
+  (fmem FhD c = false -> forall x, In x (handlers s) -> In x (handlers s')) ->
   (fmem FidD c = false -> forall k, In k (ik s) -> In k (ik s')) ->
   fmem Fcr c = false ->
   eff c p s s'.
@@ -434,7 +434,7 @@ Proof.
   unfold h_add. break_if; [apply eff_refl|]. mk_auto.
   - intros k' H. unfold hk in H. simpl in H. rewrite map_app in H. apply in_app_iff in H.
     destruct H as [H|[H|[]]]; [left; exact H|right; cbn; auto].
-  - intros _ k' H. unfold hk. simpl. rewrite map_app. apply in_app_iff. left. exact H.
+  - intros _ k' H. simpl. apply in_app_iff. left. exact H.
 Qed.
 Lemma In_hk_h_del k k' s : In k' (hk (h_del k s)) <-> In k' (hk s) /\ k' <> k.
 Proof.
@@ -1042,30 +1042,34 @@ Qed.
 Lemma fold_visit_good now e ks : forall r s, goodR s r -> goodR s (fold_left (visit now e) ks r).
 Proof. induction ks as [|k ks IH]; intros r s G; simpl; [exact G|]. apply IH. apply visit_good. exact G. Qed.
 
+Lemma enable_all_eff p s : eff [FhD] p s (set_handlers (map (fun x => (fst x, true)) (handlers s)) s).
+Proof.
+  assert (E : hk (set_handlers (map (fun x => (fst x, true)) (handlers s)) s) = hk s).
+  { unfold hk. simpl. rewrite map_map. simpl. reflexivity. }
+  apply eff_mk; try same_side; try reflexivity; try (intros _; reflexivity);
+    try (let X := fresh in intro X; discriminate X); try (let H := fresh in intros _ ? H; exact H).
+  - intros f H; destruct f; try discriminate H; try reflexivity. exact E.
+  - apply h_sub_same. exact E.
+Qed.
+
 Lemma dispatch_good now e s : goodR s (dispatch now e s).
 Proof.
   unfold dispatch. cbv zeta.
-  set (s0 := note_rx e s). assert (A0 : eff cAll pTrue s s0) by (unfold s0; peels).
-  clearbody s0. break_if; [split; cbn [fst snd]; [peels|reflexivity]|].
-  assert (G1 : goodR s (match idk_of (e_id e) with
-                        | Some k => if id_has k s0 then let '(s1, o1) := call_id_handler k now e s0 in (id_del k s1, o1) else ret s0
-                        | None => ret s0 end)).
-  { eapply goodR_pre; [exact A0|].
+  set (s0 := note_rx e s). assert (A0 : eff cAll pTrue s s0) by (unfold s0; peels). clearbody s0.
+  break_if; [split; cbn [fst snd]; [peels|reflexivity]|].
+  set (sE := set_handlers _ s0).
+  assert (AE : eff cAll pTrue s sE) by (eapply effA_trans; [exact A0|toA enable_all_eff]). clearbody sE.
+  set (r1 := match idk_of (e_id e) with Some k => _ | None => _ end).
+  assert (G1 : goodR s r1).
+  { eapply goodR_pre; [exact AE|]. unfold r1.
     destruct (idk_of (e_id e)) as [i|]; [|apply goodR_ret; apply eff_refl].
-    destruct (id_has i s0); [|apply goodR_ret; apply eff_refl].
-    pose proof (call_id_handler_good i now e s0) as [A B].
-    destruct (call_id_handler i now e s0) as [sa oa]. split; cbn [fst snd] in *; [peels|exact B]. }
-  destruct (match idk_of (e_id e) with
-            | Some k => if id_has k s0 then let '(s1, o1) := call_id_handler k now e s0 in (id_del k s1, o1) else ret s0
-            | None => ret s0 end) as [s1 o1].
+    destruct (id_has i sE); [|apply goodR_ret; apply eff_refl].
+    pose proof (call_id_handler_good i now e sE) as [A B].
+    destruct (call_id_handler i now e sE) as [sa oa]. split; cbn [fst snd] in *; [peels|exact B]. }
+  clearbody r1. destruct r1 as [s1 o1].
   match goal with |- context [fold_left (visit now e) ?ks ?r] =>
-    assert (G2 : goodR s (fold_left (visit now e) ks r)) end.
-  { apply fold_visit_good. destruct G1 as [A B]. split; cbn [fst snd] in *; [|exact B].
-    eapply effA_trans; [exact A|].
-    apply eff_of_frame; try reflexivity; try (intros X; exact X).
-    intros f H; destruct f; try discriminate H; try reflexivity.
-    unfold eq_on, hk. simpl. rewrite map_map. simpl. reflexivity. }
-  match goal with |- context [fold_left (visit now e) ?ks ?r] => destruct (fold_left (visit now e) ks r) as [s3 o3] end.
+    pose proof (fold_visit_good now e ks r s G1) as G2;
+    destruct (fold_left (visit now e) ks r) as [s3 o3] end.
   destruct G2 as [A B]. cbn [fst snd] in *.
   repeat break_if; split; cbn [fst snd]; try exact A; try exact B.
   eapply effA_trans; [exact A|apply sm_handle_effA].
